@@ -129,16 +129,16 @@ def isBadBytes : Frame → Bool
   | .badBytes => true
   | _ => false
 
-/-- The frames that reach the streaming loop: connect is attempted, the first frame is the ack and
-    the subscribe message can be serialised. -/
-def streamed (cfg : Cfg) (vars : Option (List (String × PV))) : List Frame → Option (List Frame)
+/-- The frames the streaming loop is handed once the subscribe message went out: connect is
+    attempted and the first frame is the ack.  (Deliberately a function of the configuration and
+    the frames alone: whether `json.dumps` accepts the variables is the subject of another finding,
+    C13-F4, and repairing that one must not move inputs out of the regions of C13-F2 / C13-F3.) -/
+def streamed (cfg : Cfg) (_vars : Option (List (String × PV))) : List Frame → Option (List Frame)
   | [] => none
   | f :: fs =>
     if J.hasKey "subprotocols" cfg.kwargs then none
     else if !(letter f).isAck then none
-    else match serialise vars with
-      | .typeError => none
-      | _ => some fs
+    else some fs
 
 /-! ### Wire-level vocabulary used by the C13 statements -/
 
@@ -180,6 +180,92 @@ def trigBinaryNotUtf8 (cfg : Cfg) (vars : Option (List (String × PV))) (frames 
            | some x => isBadBytes x
            | none => false
          | none => false)
+
+/-! ### The reading of "variables" (DESIGN.md §3.0) and the trigger of C13-F4
+
+  What a generated subscription method can put into `variables`: JSON scalars, lists, enum members
+  (str subclasses: JSON strings), generated input models, raw dicts (an `Any` scalar), `UNSET` at the
+  top level only - and custom scalars whose python `type` pydantic serialises by itself (README
+  "Example with type supported by pydantic": `datetime`), at the top level, in lists and in fields of
+  input models.  `json.dumps` without `default=` takes none of the latter. -/
+
+mutual
+  /-- JSON-native data, possibly with pydantic-serialisable foreign leaves (what a python-mode
+      `model_dump` / a raw dict can hold) -/
+  def plainPF : PV → Bool
+    | .null => true
+    | .bool _ => true
+    | .num _ _ => true
+    | .str _ => true
+    | .foreign j => j.isSome
+    | .list xs => plainPFList xs
+    | .dict kvs => plainPFKvs kvs
+    | .unset => false
+    | .model _ => false
+    | .modelPy _ => false
+  def plainPFList : List PV → Bool
+    | [] => true
+    | x :: xs => plainPF x && plainPFList xs
+  def plainPFKvs : List (String × PV) → Bool
+    | [] => true
+    | (_, x) :: xs => plainPF x && plainPFKvs xs
+end
+
+mutual
+  /-- a value inside the reading: models where `_convert_value` reaches them (top level, lists) -/
+  def readable : PV → Bool
+    | .null => true
+    | .bool _ => true
+    | .num _ _ => true
+    | .str _ => true
+    | .foreign j => j.isSome
+    | .model _ => true
+    | .modelPy kvs => plainPFKvs kvs
+    | .list xs => readableList xs
+    | .dict kvs => plainPFKvs kvs
+    | .unset => false
+  def readableList : List PV → Bool
+    | [] => true
+    | x :: xs => readable x && readableList xs
+end
+
+def readableTop : List (String × PV) → Bool
+  | [] => true
+  | (_, .unset) :: rest => readableTop rest
+  | (_, v) :: rest => readable v && readableTop rest
+
+def readableVars : Option (List (String × PV)) → Bool
+  | none => true
+  | some kvs => readableTop kvs
+
+mutual
+  /-- some leaf is a foreign object -/
+  def hasForeign : PV → Bool
+    | .foreign _ => true
+    | .list xs => hasForeignList xs
+    | .dict kvs => hasForeignKvs kvs
+    | .modelPy kvs => hasForeignKvs kvs
+    | _ => false
+  def hasForeignList : List PV → Bool
+    | [] => false
+    | x :: xs => hasForeign x || hasForeignList xs
+  def hasForeignKvs : List (String × PV) → Bool
+    | [] => false
+    | (_, x) :: xs => hasForeign x || hasForeignKvs xs
+end
+
+def hasForeignVars : Option (List (String × PV)) → Bool
+  | none => false
+  | some kvs => hasForeignKvs kvs
+
+/-- C13-F4: the handshake gets as far as `_send_subscribe` and the variables - inside the reading -
+    hold a value only `default=to_jsonable_python` could serialise: `json.dumps` raises `TypeError`,
+    no subscribe is sent (the HTTP path sends the same variables). -/
+def trigVarsNeedJsonableDefault (cfg : Cfg) (vars : Option (List (String × PV))) (frames : List Frame) : Bool :=
+  if J.hasKey "subprotocols" cfg.kwargs then false
+  else match frames with
+    | [] => false
+    | f :: _ => (letter f).isAck && readableVars vars && hasForeignVars vars
 
 /-- C13-F1: `ws_connect` is called with the keyword `extra_headers` (true of every call that gets
     as far as connecting: `merged_kwargs["extra_headers"] = headers` is unconditional). -/
